@@ -52,7 +52,10 @@ class Contract:
         self.callee_views = dict(kw.pop("callee_views", {}))
         # built-in mutants on source lines containing one of these texts are not generated (statements that only feed
         # external cost-accounting objects the property does not speak about); counted separately in the sweep
-        self.mutant_skip = list(kw.pop("mutant_skip", []))    # case name -> dict(requires=[], ensures=[]) additions
+        self.mutant_skip = list(kw.pop("mutant_skip", []))
+        # {"local": "Class"}: whenever that local of the function is assigned a reference of several possible classes,
+        # the class is asserted (an obligation, proved from the path facts) and the reference narrowed to it
+        self.narrow = dict(kw.pop("narrow", {}))    # case name -> dict(requires=[], ensures=[]) additions
         assert not kw, "unknown contract keys %r" % list(kw)
 
     @property
